@@ -61,7 +61,10 @@ def fmt_out(data):
     return "OK %d %s" % (len(data), hashlib.md5(data).hexdigest())
 
 
-def run_impl(files, flavor="rel", args=("-d",), nworkers=(1, 4), env=None, timeout=20):
+GRANULES = [None, None, ("4", "1"), ("8", "3"), ("64", "2"), ("12", "7"), ("4096", "5"), ("4", "4"), ("16", "1000")]
+
+
+def run_impl(files, flavor="rel", args=("-d",), nworkers=(1, 4), env=None, timeout=20, vary_granules=True):
     """Run the real binary as a filter on each file; returns list of (line, rc, stderr).
     line is 'OK len md5' for exit 0, 'ERR <first line of stderr>' for exit 1,
     'SIG <n>' / 'HANG' / 'RC <n>' otherwise."""
@@ -73,6 +76,10 @@ def run_impl(files, flavor="rel", args=("-d",), nworkers=(1, 4), env=None, timeo
         e = dict(os.environ)
         if env:
             e.update(env)
+        # hook H2: move the input-block and output-buffer boundaries through the bit stream / the run-length emitter
+        g = GRANULES[(i // 2) % len(GRANULES)] if (vary_granules and len(f) < 20000) else None
+        if g:
+            e["LBZIP2_VERIF_IN_GRANUL"], e["LBZIP2_VERIF_OUT_GRANUL"] = g
         try:
             p = subprocess.run([exe, "-n%d" % nw] + list(args), input=f, stdout=subprocess.PIPE,
                                stderr=subprocess.PIPE, timeout=timeout, env=e)
